@@ -229,8 +229,8 @@ def sendBodyFirst (e : Env) (o : O) : O × Bool :=
   | none => (o, true)
 
 def readCopy (e : Env) (o : O) (k : RKind) (n : Nat) : O × WRes :=
-  if k == .limited && n == 0 then (o, .ok 0) else
-  if e.sendfile && k != .plain then
+  if (k == .limited || k == .limitedMem) && n == 0 then (o, .ok 0) else
+  if e.sendfile && (k == .file || k == .limited) then
     let (o, ok) := sendFile e o
     if ok then (o, .ok n) else (o, .errConn)
   else
